@@ -520,7 +520,7 @@ void sim_wire_conn_end(struct sim *s, const char *why)
 		     w->len > 1 ? w->buf[1] : 255);
 	}
 	/* a defective response on an undisturbed connection must have drawn a report */
-	if (s->ex.open && !s->stop_request && !s->tfault_on_conn && s->ex.ncand > 0 && !s->ex.first_report_checked && s->ex.resp_len &&
+	if (s->ex.open && !s->stop_request && !s->tfault_on_conn && s->ex.ncand > 0 && !s->ex.cand[0].opt && !s->ex.first_report_checked && s->ex.resp_len &&
 	    s->dlog_len >= s->ex.cand[0].off + 8) {
 		char key[128];
 
